@@ -581,7 +581,7 @@ def _pdf_cases():
     page = st.lists(line, min_size=1, max_size=3)
     return st.fixed_dictionaries({"mech": st.just("pdf"), "alg": st.sampled_from(list(pdfw.ALGORITHMS)), "user_pw": st.sampled_from(["", "", "pw123", "äö secret"]),
                                   "owner_pw": st.sampled_from([None, None, "owner", "pw123", ""]), "pages": st.lists(page, min_size=1, max_size=3), "compress": st.booleans(),
-                                  "image": st.booleans(), "title": st.one_of(st.none(), _tok())})
+                                  "image": st.booleans(), "title": st.one_of(st.none(), _tok()), "align16": st.booleans()})
 
 
 # ---------------------------------------------------------------------------------------------------------------
@@ -617,6 +617,15 @@ def _pdf_build(m):
             pg["images"] = [{"data": imgenc.jpeg(8, 8), "w": 8, "h": 8, "name": "Im1"}]
         pages.append(pg)
     plain = pdfw.write_pdf(pages, info={"Title": m["title"]} if m.get("title") else None, compress=m["compress"])
+    if m.get("align16") and not m["compress"]:
+        # make the first content stream a whole number of AES blocks (PKCS#7 then adds a full block of padding): pad the last line of page 1
+        import re
+        for k in range(16):
+            pages[0]["lines"] = m["pages"][0][:-1] + [m["pages"][0][-1] + "x" * k]
+            plain = pdfw.write_pdf(pages, info={"Title": m["title"]} if m.get("title") else None, compress=False)
+            n = int(re.search(rb"<< /Length (\d+) >>\nstream", plain).group(1))
+            if n % 16 == 0:
+                break
     # owner_pw None: no owner password (pypdf then uses the user password for both, so decrypt("") answers "owner password matched")
     enc = pdfw.encrypt_pdf(plain, user_password=m["user_pw"], owner_password=m["owner_pw"], algorithm=m["alg"])
     return plain, enc
